@@ -16,7 +16,7 @@ CONSTANTS Tier
 Vocab == [ atoms |-> [ alice |-> "alice", Alice |-> "Alice", bob |-> "bob", Bob |-> "Bob", plus |-> "+", tag |-> "tag", at |-> "@",
                        dot |-> ".", star |-> "*", example |-> "example", Example |-> "Example", com |-> "com", COM |-> "COM",
                        sub |-> "sub", evil |-> "evil", org |-> "org", other |-> "other", Other |-> "Other",
-                       g1 |-> "g1", g2 |-> "g2", g3 |-> "g3", g4 |-> "g4" ] ]
+                       g1 |-> "g1", g2 |-> "g2", g3 |-> "g3", g4 |-> "g4", nil |-> "" ] ]      \* nil: the empty string as a group name
 LowMap == [ Alice |-> "alice", Bob |-> "bob", Example |-> "example", COM |-> "com", Other |-> "other" ]
 Low(a)   == IF a \in DOMAIN LowMap THEN LowMap[a] ELSE a
 LowS(s)  == [i \in 1..Len(s) |-> Low(s[i])]
@@ -38,7 +38,7 @@ DomainRuleSets == { {}, {EX}, {<<"dot">> \o EX}, {<<"star", "dot">> \o EX}, {<<"
 F(on, es) == [on |-> on, entries |-> es]
 NoFile == F(FALSE, {})
 Files == { NoFile, F(TRUE, {}), F(TRUE, {<<"alice", "at">> \o EX}), F(TRUE, {<<"Bob", "at", "Other", "dot", "org">>}) }
-GroupLists    == { <<>>, <<"g1">>, <<"g1", "g2">>, <<"g3">> }
+GroupLists    == { <<>>, <<"g1">>, <<"g1", "g2">>, <<"g3">>, <<"nil", "g3">> }
 AllowedGroups == { {}, {"g1"}, {"g2", "g4"}, {"g4"} }
 
 \* ---- requirement -------------------------------------------------------------------------
@@ -81,6 +81,12 @@ Queries == { <<>>,
              <<P("allowed_emails", <<B_OO>>)>>,
              <<P("allowed_email_domains", <<EX>>)>>,
              <<P("allowed_email_domains", <<<<"other", "dot", "org">>, <<>>>>)>>,
+             \* lists with a trailing / leading / doubled comma: the empty item is no entry (nobody's empty e-mail or group matches it)
+             <<P("allowed_emails", <<B_OO, <<>>>>)>>,
+             <<P("allowed_emails", <<<<>>, <<>>, A_EX>>)>>,
+             <<P("allowed_emails", <<<<>>>>)>>,
+             <<P("allowed_email_domains", <<EX, <<>>>>)>>,
+             <<P("allowed_groups", <<<<"g4">>, <<>>>>)>>,
              <<P("allowed_groups", <<<<"g1">>>>), P("allowed_emails", <<B_OO>>)>>,
              <<P("allowed_groups", <<<<"g1">>>>), P("allowed_emails", <<A_EX>>), P("allowed_email_domains", <<EX>>)>>,
              <<P("allowed_groups", <<<<"g4">>>>), P("allowed_emails", <<A_EX>>), P("allowed_email_domains", <<EX>>)>> }
@@ -91,7 +97,9 @@ Kinds == {"login", "request", "authonly", "htpasswd"}
 ValidCfg(c) == c.rules # {} \/ c.file.on \/ c.kind = "htpasswd"
 InScope(c) ==
     /\ ValidCfg(c)
-    /\ (c.kind # "authonly" => c.query = <<>>)
+    /\ (c.kind \notin {"authonly", "htpasswd"} => c.query = <<>>)
+    /\ (c.kind = "htpasswd" /\ c.query # <<>> => c.rules = {EX} /\ c.allowed = {})
+    /\ (\E i \in 1..Len(c.groups) : c.groups[i] = "nil") => c.kind = "authonly"
     /\ (c.kind = "htpasswd" => /\ c.email = <<"alice", "at">> \o EX /\ c.file = NoFile     \* e-mail unused: the session has none
                                  /\ c.rules \in {{EX}, {<<"star">>}, {<<"evil", "dot", "org">>}} /\ c.groups \in {<<>>, <<"g1", "g2">>}
                                  /\ c.store = "cookie")
@@ -132,6 +140,10 @@ Req_Obs(d) ==
       [] d.kind = "authonly" ->
            IF ~Allowed(d) THEN [served |-> FALSE, status |-> [oneof |-> <<401, 403>>], session |-> "cleared"]
            ELSE IF Req_Query(d.email, d.groups, d.query) THEN [served |-> TRUE, status |-> 202]
+           ELSE [served |-> FALSE, status |-> [oneof |-> <<401, 403>>]]
+      [] d.kind = "htpasswd" /\ d.query # <<>> ->      \* the e-mail-less session on the auth-only endpoint: an e-mail constraint cannot be met
+           IF ~Allowed(d) THEN [served |-> FALSE, status |-> [oneof |-> <<401, 403>>], session |-> "cleared"]
+           ELSE IF Req_Query(<<>>, d.groups, d.query) THEN [served |-> TRUE, status |-> 202]
            ELSE [served |-> FALSE, status |-> [oneof |-> <<401, 403>>]]
       [] OTHER ->   \* request, htpasswd
            IF Allowed(d) THEN [served |-> TRUE] ELSE [served |-> FALSE, status |-> [oneof |-> <<401, 403>>], session |-> "cleared"]
